@@ -195,6 +195,9 @@ def c04_chunk(args):
                 break
             variants = [("layout-%d" % v, agg.render_variant(items, trivia, seed * 7 + n * 31 + v)) for v in range(nvar)]
             variants.append(("crlf", base.replace("\n", "\r\n")))
+            # the line ending between ')' and the next command's name replaced by one space (the tokens stay the same)
+            import re as _re
+            variants.append(("joined", _re.sub(r"\)\n(?=[A-Za-z_])", ") ", base)))
             for vname, src in variants:
                 st, page, _, _ = agg.run_real(src, settings)
                 if st != "ok":
@@ -234,3 +237,34 @@ def replay_c04(run, res, trivia, seed, limit, nvar):
     if behs:
         its = agg.items_of(behs[0]["prog"], cmds, seed)
         run.sample({"baseline": agg.render_baseline(its), "variant": agg.render_variant(its, trivia, seed)})
+
+
+# ---------------------------------------------------------------- C05: well-formed programs are processed to completion
+def completion_chunk(args):
+    chunk, cmds, pats, seed, trivia = args
+    out = []
+    for n, beh in chunk:
+        items = agg.items_of(beh["prog"], cmds, seed * 1000003 + n)
+        src = agg.render_variant(items, trivia, seed * 13 + n)
+        st, page, _, _ = agg.run_real(src, agg.make_settings(beh["inc"], pats))
+        out.append((n, None if st == "ok" else (src, page)))
+    return out
+
+
+def replay_completion(run, res, trivia, seed, limit):
+    cmds = res.lines["CMDS"][0]
+    pats = res.lines["PATS"][0]
+    behs = [b for b in res.lines.get("BEH", [])]
+    if limit and len(behs) > limit:
+        behs = random.Random(seed).sample(behs, limit)
+    items = list(enumerate(behs))
+    chunks = [(items[i::lib.NCPU * 2], cmds, pats, seed, trivia) for i in range(lib.NCPU * 2)]
+    chunks = [c for c in chunks if c[0]]
+    with ProcessPoolExecutor(max_workers=lib.NCPU, initializer=_init_worker, initargs=(lib.CMINX_SRC,)) as ex:
+        for part in ex.map(completion_chunk, chunks):
+            for n, r in part:
+                run.behaviours += 1
+                run.count("completion:" + json.dumps(behs[n]["prog"]))
+                if r:
+                    run.violation({"source": r[0], "features": {"balanced_blocks_varied_case": True}}, "processed to completion", r[1],
+                                  "a well-formed module with balanced blocks is not processed to completion")
